@@ -119,7 +119,7 @@ theorem rc_loop (q : String → String) (hq : Ren q) (costArr : String) (h w : N
       subst hw
       obtain ⟨fuel, rfl⟩ : ∃ f, fuel = f + 1 := ⟨fuel - 1, by simp at hfuel; omega⟩
       have hd : exec (fuel + 1) (rcWhile q costArr) st = st :=
-        exec_while_done (by simp [rcCond, BE.ok, IE.ok])
+        exec_while_exit (by simp [rcCond, BE.ok, IE.ok])
           (by simp [rcCond, BE.eval, IE.eval, cmpInt, hcy, hcx, hsy, hsx, hcs])
       rw [hd]
       exact ⟨hst, by simp [chainW, setS_self], rfl, rfl, rfl, rfl, rfl, fun _ _ => rfl⟩
@@ -152,7 +152,7 @@ theorem rc_loop (q : String → String) (hq : Ren q) (costArr : String) (h w : N
             simp only [rcCond, BE.eval, IE.eval, cmpInt, hcy, hcx, hsy, hsx, Bool.or_eq_true, decide_eq_true_eq]
             by_contra hno
             exact hcs (Prod.ext (by omega) (by omega))
-          rw [rcWhile, exec_while_step (by simp [rcCond, BE.ok, IE.ok]) hc1 hb hst]
+          rw [rcWhile, exec_while_to (by simp [rcCond, BE.ok, IE.ok]) hc1 hb hst]
           have ih := rc_loop q hq costArr h w start n p t st1 fuel ht
             (fun c hc => hin c (by simp [hc])) hst
             ⟨hshp.sp, hshp.sy, hshp.sx, hshp.sc, hshp.ne⟩
